@@ -59,6 +59,7 @@ package util
 //@   requires val.SeqNo == q.NextSeqNo                                                   :only_expected_packet
 //@   modifies q.in, q.in[*], q.NextSeqNo
 //@   ensures q.NextSeqNo == old(q.NextSeqNo) + 1                                         :seq_advances
+//@   ensures spec_sameref(q.in, old(q.in)) || spec_fresh(q.in)
 //@   ensures len(q.in) == old(len(q.in)) + len(val.Data)                                 :grows_by_data
 //@   ensures forall i :: 0 <= i && i < old(len(q.in)) ==> q.in[i] == old(q.in[i])        :prefix_kept
 //@   ensures !old(spec_sameref(val.Data, q.in)) ==> (forall i :: 0 <= i && i < len(val.Data) ==> q.in[old(len(q.in))+i] == old(val.Data[i]))   :data_appended
@@ -68,6 +69,7 @@ package util
 //@   safe
 //@   terminates
 //@   requires inWF(q)
+//@   modifies q.in, q.in[*], q.NextSeqNo, q.future, q.future[*], q.acked, q.acked[*], q.queueHasData, q.queueNotifiers
 //@   ensures inWF(q)                                                                                            :wf_kept
 //@   ensures val == nil ==> err == nil && len(q.in) == old(len(q.in)) && q.NextSeqNo == old(q.NextSeqNo)       :nil_ignored
 //@   ensures val != nil && old(memberU16(q.acked, val.SeqNo)) ==> err == nil && len(q.in) == old(len(q.in)) && q.NextSeqNo == old(q.NextSeqNo) && len(q.future) == old(len(q.future))   :duplicate_absorbed
@@ -76,12 +78,12 @@ package util
 //@   ensures val != nil && !old(memberU16(q.acked, val.SeqNo)) && val.SeqNo != old(q.NextSeqNo) && (uint16(val.SeqNo - old(q.NextSeqNo)) < 128) ==> err == nil && len(q.in) == old(len(q.in)) && q.NextSeqNo == old(q.NextSeqNo) && len(q.future) == old(len(q.future)) + 1 && q.future[len(q.future)-1] == val   :future_stored
 //@   ensures val != nil && !old(memberU16(q.acked, val.SeqNo)) && val.SeqNo == old(q.NextSeqNo) ==> err == nil && len(q.in) >= old(len(q.in)) + len(old(val.Data))   :expected_packet_released
 //@   loop 1 vars added bool
-//@   loop 1 invariant inWF(q)
+//@   loop 1 invariant inWF(q) && (spec_sameref(q.future, old(q.future)) || spec_fresh(q.future)) && (spec_sameref(q.in, old(q.in)) || spec_fresh(q.in))
 //@   loop 1 invariant len(q.in) >= old(len(q.in)) + len(old(val.Data))
 //@   loop 1 invariant len(q.future) <= old(len(q.future))
 //@   loop 1 decreases 2*len(q.future) + boolInt(added)
 //@   loop 2 vars iter int, rng []*Packet
-//@   loop 2 invariant inWF(q) && len(rng) == len(q.future) && (len(rng) > 0 ==> &rng[0] == &q.future[0])
+//@   loop 2 invariant inWF(q) && len(rng) == len(q.future) && (len(rng) > 0 ==> &rng[0] == &q.future[0]) && (spec_sameref(q.future, old(q.future)) || spec_fresh(q.future)) && (spec_sameref(q.in, old(q.in)) || spec_fresh(q.in))
 //@   loop 3 vars i uint16, inWindow bool
 //@   loop 3 invariant uint16(i - q.NextSeqNo) >= 1 && uint16(i - q.NextSeqNo) <= 128
 //@   loop 3 invariant inWindow == (uint16(val.SeqNo - q.NextSeqNo) >= 1 && uint16(val.SeqNo - q.NextSeqNo) < uint16(i - q.NextSeqNo))
@@ -93,6 +95,7 @@ package util
 //@   property C07, C17
 //@   safe
 //@   requires inWF(q) && !spec_sameref(p, q.in)
+//@   modifies q.in, p[*], q.queueHasData, q.queueNotifiers
 //@   ensures inWF(q)
 //@   ensures err == nil ==> 0 <= n && n <= len(p) && n <= old(len(q.in)) && (n == len(p) || n == old(len(q.in)))   :count
 //@   ensures err == nil ==> len(q.in) == old(len(q.in)) - n                                                         :consumed
@@ -297,3 +300,114 @@ package util
 // exported views of the queue invariants for the packages that embed the queues
 //@ go func InWF(q *InQueue) bool { return inWF(q) }
 //@ go func OutWF(q *OutQueue) bool { return outWF(q) }
+
+// ===================================================================================================
+// building the answer section (C10 record shapes, C12 termination / safety)
+
+//@ func GetLongestDataString
+//@   property C10, C12
+//@   pure
+//@   trusted "uses float64 math.Ceil, which this verifier treats as opaque; for len(domain) <= 180 the result is (250-len) - ceil((250-len)/60) >= 68"
+//@   ensures len(domain) <= 180 ==> result >= 1 && result <= 250
+
+//@ func PrepareHostname
+//@   property C09, C10, C12
+//@   safe
+//@   pure
+//@   ensures err == nil ==> len(result) <= HostnameMaxLen - 2                 :name_fits
+
+//@ func Dotify
+//@   property C09, C10, C12
+//@   safe
+//@   terminates
+//@   pure
+//@   loop 1 vars buf []byte, res []byte
+//@   loop 1 invariant spec_fresh(res)
+//@   loop 1 decreases len(buf)
+
+//@ func WrapDnsResponse
+//@   property C10, C12
+//@   safe
+//@   requires msg != nil && len(msg.Question) >= 1 && len(domain) <= 180
+//@   modifies msg.Answer, msg.Answer[*], msg.Authoritative
+
+//@ func WrapDnsResponseA
+//@   property C10, C12
+//@   safe
+//@   terminates
+//@   requires msg != nil && len(msg.Question) >= 1 && len(domain) <= 180
+//@   modifies msg.Answer, msg.Answer[*], msg.Authoritative
+//@   loop 1 vars data []byte
+//@   loop 1 invariant msg != nil && len(msg.Question) >= 1 && (spec_sameref(msg.Answer, old(msg.Answer)) || spec_fresh(msg.Answer))
+//@   loop 1 decreases len(data)
+
+//@ func WrapDnsResponseAAAA
+//@   property C10, C12
+//@   safe
+//@   terminates
+//@   requires msg != nil && len(msg.Question) >= 1 && len(domain) <= 180
+//@   modifies msg.Answer, msg.Answer[*], msg.Authoritative
+//@   loop 1 vars data []byte
+//@   loop 1 invariant msg != nil && len(msg.Question) >= 1 && (spec_sameref(msg.Answer, old(msg.Answer)) || spec_fresh(msg.Answer))
+//@   loop 1 decreases len(data)
+
+//@ func WrapDnsResponseCname
+//@   property C10, C12
+//@   safe
+//@   terminates
+//@   requires msg != nil && len(msg.Question) >= 1 && len(domain) <= 180
+//@   modifies msg.Answer, msg.Answer[*], msg.Authoritative
+//@   loop 1 vars data []byte
+//@   loop 1 invariant msg != nil && len(msg.Question) >= 1 && (spec_sameref(msg.Answer, old(msg.Answer)) || spec_fresh(msg.Answer))
+//@   loop 1 decreases len(data)
+
+//@ func WrapDnsResponseSrv
+//@   property C10, C12
+//@   safe
+//@   terminates
+//@   requires msg != nil && len(msg.Question) >= 1 && len(domain) <= 180
+//@   modifies msg.Answer, msg.Answer[*], msg.Authoritative
+//@   loop 1 vars data []byte
+//@   loop 1 invariant msg != nil && len(msg.Question) >= 1 && (spec_sameref(msg.Answer, old(msg.Answer)) || spec_fresh(msg.Answer))
+//@   loop 1 decreases len(data)
+
+//@ func WrapDnsResponseMx
+//@   property C10, C12
+//@   safe
+//@   terminates
+//@   requires msg != nil && len(msg.Question) >= 1 && len(domain) <= 180
+//@   modifies msg.Answer, msg.Answer[*], msg.Authoritative
+//@   loop 1 vars data []byte
+//@   loop 1 invariant msg != nil && len(msg.Question) >= 1 && (spec_sameref(msg.Answer, old(msg.Answer)) || spec_fresh(msg.Answer))
+//@   loop 1 decreases len(data)
+
+//@ func WrapDnsResponseTxt
+//@   property C10, C12
+//@   safe
+//@   terminates
+//@   requires msg != nil && len(msg.Question) >= 1 && len(domain) <= 180
+//@   modifies msg.Answer, msg.Answer[*], msg.Authoritative
+//@   loop 1 vars data []byte, txtData []string
+//@   loop 1 invariant spec_fresh(txtData)
+//@   loop 1 invariant msg != nil && len(msg.Question) >= 1 && (spec_sameref(msg.Answer, old(msg.Answer)) || spec_fresh(msg.Answer))
+//@   loop 1 decreases len(data)
+
+//@ func WrapDnsResponsePrivate
+//@   property C10, C12
+//@   safe
+//@   terminates
+//@   requires msg != nil && len(msg.Question) >= 1 && len(domain) <= 180
+//@   modifies msg.Answer, msg.Answer[*], msg.Authoritative
+//@   loop 1 vars data []byte
+//@   loop 1 invariant msg != nil && len(msg.Question) >= 1 && (spec_sameref(msg.Answer, old(msg.Answer)) || spec_fresh(msg.Answer))
+//@   loop 1 decreases len(data)
+
+//@ func WrapDnsResponseNull
+//@   property C10, C12
+//@   safe
+//@   terminates
+//@   requires msg != nil && len(msg.Question) >= 1 && len(domain) <= 180
+//@   modifies msg.Answer, msg.Answer[*], msg.Authoritative
+//@   loop 1 vars data []byte
+//@   loop 1 invariant msg != nil && len(msg.Question) >= 1 && (spec_sameref(msg.Answer, old(msg.Answer)) || spec_fresh(msg.Answer))
+//@   loop 1 decreases len(data)
